@@ -25,6 +25,7 @@ const (
 	fQuotedComma
 	fQuotedDquote
 	fQuotedBackslash
+	fQuotedTrailingBackslash
 	fQuotedSemi
 	fQuotedSpace
 	fUpperParamName
@@ -41,12 +42,12 @@ var featName = [nFeat]string{
 	"htab-as-ows", "ows-between-weight-and-comma", "ows-before-comma", "ows-after-comma",
 	"ows-before-semicolon", "ows-after-semicolon", "uppercase-Q-weight", "weight-with-trailing-zeros",
 	"weight-with-trailing-dot", "quoted-token-value", "comma-in-quoted-value", "escaped-dquote-in-quoted-value",
-	"escaped-backslash-in-quoted-value", "semicolon-in-quoted-value", "space-in-quoted-value",
+	"escaped-backslash-in-quoted-value", "quoted-value-ending-in-escaped-backslash", "semicolon-in-quoted-value", "space-in-quoted-value",
 	"uppercase-parameter-name", "empty-list-element", "offer-as-extension", "offer-space-after-semicolon",
 	"offer-quoted-token-value", "offer-uppercase", "offer-empty-string",
 }
 
-var combinationOrder = [nFeat]int{fQuotedDquote, fQuotedBackslash, fHtab, fUpperQ, fQDot, fQLong, fOwsAfterWeight,
+var combinationOrder = [nFeat]int{fQuotedTrailingBackslash, fQuotedDquote, fQuotedBackslash, fHtab, fUpperQ, fQDot, fQLong, fOwsAfterWeight,
 	fQuotedComma, fQuotedSemi, fQuotedSpace, fQuotedToken, fUpperParamName, fOwsBeforeComma, fOwsBeforeSemi,
 	fOwsAfterSemi, fOwsAfterComma, fOfferExt, fOfferSpace, fOfferQuoted, fOfferCase, fOfferEmpty, fEmptyElement}
 
@@ -58,6 +59,8 @@ func valueClass(v string) int {
 	switch {
 	case isTokenStr(v):
 		return -1
+	case strings.HasSuffix(v, `\`):
+		return fQuotedTrailingBackslash
 	case strings.Contains(v, `"`):
 		return fQuotedDquote
 	case strings.Contains(v, `\`):
